@@ -7,7 +7,8 @@
 // write / raw-file-system / call effects in source order, closures passed to withLock nested) and
 // ReplayGen.v (replay_ir.go: replayEvents / applyTombstone as the statement IR of bridge/ReplayIR.v),
 // ReadyGen.v (ready_ir.go: isReady / isBlocked / epic completeness / list filters and comparisons) and
-// CompactGen.v (compact_ir.go: compactEvents as the emission IR of bridge/CompactIR.v).
+// CompactGen.v (compact_ir.go: compactEvents as the emission IR of bridge/CompactIR.v) and ReadGen.v
+// (read_ir.go: readEvents / getEventsPath / encodeEventLine / hasUnterminatedTail as the imperative IR of bridge/ReadIR.v).
 // Only go/parser + go/ast are used; anything outside the accepted fragment is a fatal error.
 package main
 
@@ -804,4 +805,8 @@ func main() {
 	write("ReplayGen.v", genReplay(fset, files))     // replay_ir.go
 	write("ReadyGen.v", genReadyIR(fset, files))     // ready_ir.go
 	write("CompactGen.v", genCompactIR(fset, files)) // compact_ir.go
+	write("ReadGen.v", genReadIR(fset, files))       // read_ir.go
+	write("CycleGen.v", genCycleIR(fset, files))     // cycle_ir.go
+	write("PruneGen.v", genPruneIR(fset, files))     // prune_ir.go
+	write("OutGen.v", genOutSafe(root))              // out_ir.go, out_scan.go, out_walk.go
 }
